@@ -30,13 +30,13 @@ import (
 //
 // option-bytes tokens: "nil", "-" (empty, non-nil) or hex.
 
-func optTok(b []byte) string {
+func issOptTok(b []byte) string {
 	if b == nil {
 		return "nil"
 	}
 	return hx(b)
 }
-func (t *Toks) Opt() []byte {
+func (t *Toks) IssOpt() []byte {
 	s := t.Next()
 	if s == "nil" {
 		return nil
@@ -52,7 +52,7 @@ func (t *Toks) Opt() []byte {
 }
 
 // bytes token that is never nil-vs-empty sensitive
-func (t *Toks) Raw() []byte {
+func (t *Toks) IssRaw() []byte {
 	s := t.Next()
 	if s == "-" {
 		return []byte{}
@@ -65,7 +65,7 @@ func (t *Toks) Raw() []byte {
 }
 
 // ---------- issid ----------
-func resOpt(b []byte, err error) string {
+func issResOpt(b []byte, err error) string {
 	if err != nil {
 		return "err"
 	}
@@ -73,13 +73,13 @@ func resOpt(b []byte, err error) string {
 }
 
 func runIssID(t *Toks) string {
-	hash := t.Raw()
+	hash := t.IssRaw()
 	index := uint32(t.U64())
-	chash := t.Raw()
-	entropy := t.Raw()
+	chash := t.IssRaw()
+	entropy := t.IssRaw()
 	flag := uint(t.U64())
-	nonce := t.Raw()
-	ientropy := t.Raw()
+	nonce := t.IssRaw()
+	ientropy := t.IssRaw()
 	e, err1 := transaction.ComputeEntropy(hash, index, chash)
 	a, err2 := transaction.ComputeAsset(append([]byte{}, entropy...))
 	k, err3 := transaction.ComputeReissuanceToken(append([]byte{}, entropy...), flag)
@@ -89,30 +89,30 @@ func runIssID(t *Toks) string {
 	if ie, err := transaction.NewTxIssuanceFromInput(in); err == nil {
 		fi = hx(ie.AssetEntropy) + "/" + hx(ie.ContractHash)
 	}
-	return fmt.Sprintf("entropy=%s asset=%s token=%s frominput=%s", resOpt(e, err1), resOpt(a, err2), resOpt(k, err3), fi)
+	return fmt.Sprintf("entropy=%s asset=%s token=%s frominput=%s", issResOpt(e, err1), issResOpt(a, err2), issResOpt(k, err3), fi)
 }
 
 func runIssMid(t *Toks) string {
-	b := t.Raw()
+	b := t.IssRaw()
 	m := fastsha256.MidState256(b)
 	return "mid=" + hx(m[:])
 }
 
 // ---------- contracts ----------
-func readContract(t *Toks) *transaction.IssuanceContract {
+func issReadContract(t *Toks) *transaction.IssuanceContract {
 	if t.Int() == 0 {
 		return nil
 	}
 	c := &transaction.IssuanceContract{}
-	c.Name = string(t.Raw())
-	c.Ticker = string(t.Raw())
+	c.Name = string(t.IssRaw())
+	c.Ticker = string(t.IssRaw())
 	c.Version = uint(t.U64())
 	c.Precision = uint(t.U64())
-	c.PubKey = string(t.Raw())
-	c.Entity.Domain = string(t.Raw())
+	c.PubKey = string(t.IssRaw())
+	c.Entity.Domain = string(t.IssRaw())
 	return c
 }
-func writeContract(b *sb, c *transaction.IssuanceContract) {
+func issWriteContract(b *sb, c *transaction.IssuanceContract) {
 	if c == nil {
 		b.add("0")
 		return
@@ -128,7 +128,7 @@ func writeContract(b *sb, c *transaction.IssuanceContract) {
 
 func runIssCon(t *Toks) string {
 	asset, token, prec := t.U64(), t.U64(), uint(t.U64())
-	c := readContract(t)
+	c := issReadContract(t)
 	ie, err := transaction.NewTxIssuance(asset, token, prec, c)
 	if err != nil {
 		return "res=err"
@@ -138,7 +138,7 @@ func runIssCon(t *Toks) string {
 }
 
 // ---------- addresses ----------
-type addrTok struct {
+type issAddrTok struct {
 	s       string
 	present bool
 	valid   bool
@@ -147,8 +147,8 @@ type addrTok struct {
 	key     []byte
 }
 
-func decodeAddr(s string) addrTok {
-	a := addrTok{s: s, present: len(s) > 0}
+func issDecodeAddr(s string) issAddrTok {
+	a := issAddrTok{s: s, present: len(s) > 0}
 	if _, err := address.DecodeType(s); err == nil {
 		a.valid = true
 	}
@@ -167,8 +167,8 @@ func decodeAddr(s string) addrTok {
 	}
 	return a
 }
-func writeAddr(b *sb, s string) {
-	a := decodeAddr(s)
+func issWriteAddr(b *sb, s string) {
+	a := issDecodeAddr(s)
 	if s == "" {
 		b.add("-")
 	} else {
@@ -180,21 +180,21 @@ func writeAddr(b *sb, s string) {
 	b.addh(a.script)
 	b.addh(a.key)
 }
-func readAddr(t *Toks) addrTok {
+func issReadAddr(t *Toks) issAddrTok {
 	s := t.Next()
 	if s == "-" {
 		s = ""
 	}
-	a := addrTok{s: s}
+	a := issAddrTok{s: s}
 	a.present = t.Int() == 1
 	a.valid = t.Int() == 1
 	a.conf = t.Int() == 1
-	a.script = t.Raw()
-	a.key = t.Raw()
+	a.script = t.IssRaw()
+	a.key = t.IssRaw()
 	return a
 }
 
-func genPubKey(r *Rng) []byte {
+func issGenPubKey(r *Rng) []byte {
 	for {
 		k := r.Bytes(32)
 		k[0] &= 0x7f
@@ -206,7 +206,7 @@ func genPubKey(r *Rng) []byte {
 	}
 }
 
-func genAddr(r *Rng, conf bool) string {
+func issGenAddr(r *Rng, conf bool) string {
 	net := network.Regtest
 	if r.Chance(20) {
 		net = network.Liquid
@@ -217,21 +217,21 @@ func genAddr(r *Rng, conf bool) string {
 	case 0: // p2pkh
 		b := address.Base58{Version: net.PubKeyHash, Data: r.Bytes(20)}
 		if conf {
-			s = address.ToBase58Confidential(&address.Base58Confidential{Base58: b, Version: net.Confidential, PublicKey: genPubKey(r)})
+			s = address.ToBase58Confidential(&address.Base58Confidential{Base58: b, Version: net.Confidential, PublicKey: issGenPubKey(r)})
 		} else {
 			s = address.ToBase58(&b)
 		}
 	case 1: // p2sh
 		b := address.Base58{Version: net.ScriptHash, Data: r.Bytes(20)}
 		if conf {
-			s = address.ToBase58Confidential(&address.Base58Confidential{Base58: b, Version: net.Confidential, PublicKey: genPubKey(r)})
+			s = address.ToBase58Confidential(&address.Base58Confidential{Base58: b, Version: net.Confidential, PublicKey: issGenPubKey(r)})
 		} else {
 			s = address.ToBase58(&b)
 		}
 	default: // p2wpkh / p2wsh
 		n := r.Pick(20, 32)
 		if conf {
-			s, err = address.ToBlech32(&address.Blech32{Prefix: net.Blech32, Version: 0, PublicKey: genPubKey(r), Program: r.Bytes(n)})
+			s, err = address.ToBlech32(&address.Blech32{Prefix: net.Blech32, Version: 0, PublicKey: issGenPubKey(r), Program: r.Bytes(n)})
 		} else {
 			s, err = address.ToBech32(&address.Bech32{Prefix: net.Bech32, Version: 0, Program: r.Bytes(n)})
 		}
@@ -243,19 +243,19 @@ func genAddr(r *Rng, conf bool) string {
 }
 
 // an address for a call: mostly valid, sometimes missing or garbage
-func genAddrMaybe(r *Rng, conf bool) string {
+func issGenAddrMaybe(r *Rng, conf bool) string {
 	switch k := r.Intn(100); {
-	case k < 6:
+	case k < 3:
 		return ""
-	case k < 10:
+	case k < 5:
 		return "notanaddress" + strconv.Itoa(r.Intn(1000))
 	default:
-		return genAddr(r, conf)
+		return issGenAddr(r, conf)
 	}
 }
 
 // ---------- generators: ids ----------
-func genIndex(r *Rng) uint32 {
+func issGenIndex(r *Rng) uint32 {
 	switch r.Intn(10) {
 	case 0:
 		return 0
@@ -275,7 +275,7 @@ func genIndex(r *Rng) uint32 {
 		return uint32(r.U64())
 	}
 }
-func genLen32(r *Rng) []byte {
+func issGenLen32(r *Rng) []byte {
 	switch k := r.Intn(100); {
 	case k < 88:
 		return r.Bytes(32)
@@ -292,12 +292,12 @@ func genLen32(r *Rng) []byte {
 
 func genIssIDCases(r *Rng, n int, w *bufio.Writer) {
 	for i := 0; i < n; i++ {
-		hash := genLen32(r)
-		chash := genLen32(r)
+		hash := issGenLen32(r)
+		chash := issGenLen32(r)
 		if r.Chance(15) {
 			chash = make([]byte, 32)
 		}
-		entropy := genLen32(r)
+		entropy := issGenLen32(r)
 		flag := uint64(r.Pick(0, 0, 1, 1, 1, 2, 3, 255, 256))
 		if r.Chance(3) {
 			flag = r.U64()
@@ -311,8 +311,8 @@ func genIssIDCases(r *Rng, n int, w *bufio.Writer) {
 		case 2:
 			nonce[31] = 1
 		}
-		ient := genLen32(r)
-		fmt.Fprintf(w, "issid %s %d %s %s %d %s %s\n", hx(hash), genIndex(r), hx(chash), hx(entropy), flag, hx(nonce), hx(ient))
+		ient := issGenLen32(r)
+		fmt.Fprintf(w, "issid %s %d %s %s %d %s %s\n", hx(hash), issGenIndex(r), hx(chash), hx(entropy), flag, hx(nonce), hx(ient))
 	}
 }
 
@@ -328,7 +328,7 @@ func genIssMidCases(r *Rng, n int, w *bufio.Writer) {
 }
 
 // strings over the alphabet that encoding/json copies through unchanged
-func genJStr(r *Rng) string {
+func issGenJStr(r *Rng) string {
 	const alpha = "abcdefghijklmnopqrstuvwxyzABCDEFGHIJKLMNOPQRSTUVWXYZ0123456789 .,:;-_/+*=!?#$%'()[]{}|~^@`"
 	n := r.Pick(0, 1, 3, 8, 20, 66)
 	var b strings.Builder
@@ -337,11 +337,11 @@ func genJStr(r *Rng) string {
 	}
 	return b.String()
 }
-func genContract(r *Rng, precision uint) *transaction.IssuanceContract {
-	c := &transaction.IssuanceContract{Name: genJStr(r), Ticker: genJStr(r), PubKey: hex.EncodeToString(genPubKey(r))}
-	c.Entity.Domain = genJStr(r)
+func issGenContract(r *Rng, precision uint) *transaction.IssuanceContract {
+	c := &transaction.IssuanceContract{Name: issGenJStr(r), Ticker: issGenJStr(r), PubKey: hex.EncodeToString(issGenPubKey(r))}
+	c.Entity.Domain = issGenJStr(r)
 	c.Precision = precision
-	if r.Chance(8) {
+	if r.Chance(4) {
 		c.Precision = uint(r.Intn(12))
 	}
 	switch r.Intn(6) {
@@ -358,7 +358,7 @@ func genContract(r *Rng, precision uint) *transaction.IssuanceContract {
 	}
 	return c
 }
-func genAmount(r *Rng) uint64 {
+func issGenAmount(r *Rng) uint64 {
 	switch r.Intn(8) {
 	case 0, 1:
 		return 0
@@ -372,8 +372,8 @@ func genAmount(r *Rng) uint64 {
 		return r.U64() >> uint(r.Intn(64))
 	}
 }
-func genPrecision(r *Rng) uint {
-	if r.Chance(8) {
+func issGenPrecision(r *Rng) uint {
+	if r.Chance(4) {
 		return uint(r.Pick(9, 10, 255, 1<<32))
 	}
 	return uint(r.Intn(9))
@@ -382,14 +382,14 @@ func genPrecision(r *Rng) uint {
 func genIssConCases(r *Rng, n int, w *bufio.Writer) {
 	for i := 0; i < n; i++ {
 		var b sb
-		prec := genPrecision(r)
-		b.addn(genAmount(r))
-		b.addn(genAmount(r))
+		prec := issGenPrecision(r)
+		b.addn(issGenAmount(r))
+		b.addn(issGenAmount(r))
 		b.addn(uint64(prec))
 		if r.Chance(75) {
-			writeContract(&b, genContract(r, prec))
+			issWriteContract(&b, issGenContract(r, prec))
 		} else {
-			writeContract(&b, nil)
+			issWriteContract(&b, nil)
 		}
 		fmt.Fprintf(w, "isscon %s\n", strings.TrimSpace(b.String()))
 	}
@@ -401,42 +401,42 @@ type issArgs struct {
 	contract  *transaction.IssuanceContract
 	asset     uint64
 	token     uint64
-	aaddr     addrTok
-	taddr     addrTok
+	aaddr     issAddrTok
+	taddr     issAddrTok
 	blinded   bool
 }
 
 func genIssArgs(r *Rng) (uint, *transaction.IssuanceContract, uint64, uint64, string, string, bool) {
-	prec := genPrecision(r)
+	prec := issGenPrecision(r)
 	var c *transaction.IssuanceContract
 	if r.Chance(50) {
-		c = genContract(r, prec)
+		c = issGenContract(r, prec)
 	}
-	asset, token := genAmount(r), genAmount(r)
+	asset, token := issGenAmount(r), issGenAmount(r)
 	conf := r.Bool()
 	tconf := conf
-	if r.Chance(20) {
+	if r.Chance(12) {
 		tconf = !conf
 	}
-	return prec, c, asset, token, genAddrMaybe(r, conf), genAddrMaybe(r, tconf), r.Bool()
+	return prec, c, asset, token, issGenAddrMaybe(r, conf), issGenAddrMaybe(r, tconf), r.Bool()
 }
 func writeIssArgs(b *sb, prec uint, c *transaction.IssuanceContract, asset, token uint64, aaddr, taddr string, blinded bool) {
 	b.addn(uint64(prec))
-	writeContract(b, c)
+	issWriteContract(b, c)
 	b.addn(asset)
 	b.addn(token)
-	writeAddr(b, aaddr)
-	writeAddr(b, taddr)
+	issWriteAddr(b, aaddr)
+	issWriteAddr(b, taddr)
 	b.add(b2s(blinded))
 }
 func readIssArgs(t *Toks) issArgs {
 	var a issArgs
 	a.precision = uint(t.U64())
-	a.contract = readContract(t)
+	a.contract = issReadContract(t)
 	a.asset = t.U64()
 	a.token = t.U64()
-	a.aaddr = readAddr(t)
-	a.taddr = readAddr(t)
+	a.aaddr = issReadAddr(t)
+	a.taddr = issReadAddr(t)
 	a.blinded = t.Int() == 1
 	return a
 }
@@ -445,15 +445,15 @@ func readIssArgs(t *Toks) issArgs {
 // a small unsigned transaction: inputs with or without issuance, explicit outputs
 func genV0Tx(r *Rng) *transaction.Transaction {
 	tx := &transaction.Transaction{Version: 2}
-	nin := r.Pick(0, 1, 1, 2, 3, 4)
+	nin := r.Pick(0, 1, 1, 1, 2, 2, 3, 4)
 	for i := 0; i < nin; i++ {
 		hash := r.Bytes(32)
 		if r.Chance(4) {
 			hash = r.Bytes(r.Pick(0, 31, 33))
 		}
-		in := transaction.NewTxInput(hash, genIndex(r))
+		in := transaction.NewTxInput(hash, issGenIndex(r))
 		if r.Chance(8) {
-			in.Index = genIndex(r) // not masked: a transaction built by hand
+			in.Index = issGenIndex(r) // not masked: a transaction built by hand
 		}
 		if r.Chance(35) {
 			in.Issuance = &transaction.TxIssuance{AssetBlindingNonce: make([]byte, 32), AssetEntropy: r.Bytes(32),
@@ -469,7 +469,7 @@ func genV0Tx(r *Rng) *transaction.Transaction {
 	return tx
 }
 
-func hexStrMaybe(r *Rng, n int) (string, []byte) {
+func issHexStrMaybe(r *Rng, n int) (string, []byte) {
 	switch k := r.Intn(100); {
 	case k < 90:
 		b := r.Bytes(n)
@@ -485,7 +485,7 @@ func hexStrMaybe(r *Rng, n int) (string, []byte) {
 		return hex.EncodeToString(r.Bytes(n))[1:], nil
 	}
 }
-func strTok(s string) string {
+func issStrTok(s string) string {
 	if s == "" {
 		return "-"
 	}
@@ -510,19 +510,19 @@ func genIssV0Cases(r *Rng, n int, w *bufio.Writer) {
 			writeTx(&b, tx)
 			// utxo_ok hash-string hash-decoded index blinder entropy-string entropy-decoded asset token aaddr taddr
 			b.add(b2s(!r.Chance(6)))
-			hs, hd := hexStrMaybe(r, 32)
-			b.add(strTok(hs))
-			b.add(optTok(hd))
-			b.addn(uint64(genIndex(r)))
+			hs, hd := issHexStrMaybe(r, 32)
+			b.add(issStrTok(hs))
+			b.add(issOptTok(hd))
+			b.addn(uint64(issGenIndex(r)))
 			bl := r.Bytes(32)
 			if r.Chance(5) {
 				bl = r.Bytes(r.Pick(0, 31, 33))
 			}
 			b.addh(bl)
-			es, ed := hexStrMaybe(r, 32)
-			b.add(strTok(es))
-			b.add(optTok(ed))
-			asset, token := genAmount(r), genAmount(r)
+			es, ed := issHexStrMaybe(r, 32)
+			b.add(issStrTok(es))
+			b.add(issOptTok(ed))
+			asset, token := issGenAmount(r), issGenAmount(r)
 			if r.Chance(70) {
 				asset |= 1
 				token |= 1
@@ -531,8 +531,8 @@ func genIssV0Cases(r *Rng, n int, w *bufio.Writer) {
 			b.addn(token)
 			conf := !r.Chance(8)
 			tconf := !r.Chance(8)
-			writeAddr(&b, genAddrMaybe(r, conf))
-			writeAddr(&b, genAddrMaybe(r, tconf))
+			issWriteAddr(&b, issGenAddrMaybe(r, conf))
+			issWriteAddr(&b, issGenAddrMaybe(r, tconf))
 		}
 		fmt.Fprintf(w, "issv0 %s\n", strings.TrimSpace(b.String()))
 	}
@@ -545,7 +545,7 @@ type v0Case struct {
 	re   pset.AddReissuanceArgs
 }
 
-func confUtxo() *transaction.TxOutput {
+func issConfUtxo() *transaction.TxOutput {
 	o := transaction.NewTxOutput(append([]byte{0x0a}, make([]byte, 32)...), append([]byte{0x08}, make([]byte, 32)...), []byte{0, 20, 1, 2, 3, 4, 5, 6, 7, 8, 9, 10, 11, 12, 13, 14, 15, 16, 17, 18, 19, 20})
 	o.Nonce = append([]byte{0x02}, make([]byte, 32)...)
 	return o
@@ -566,18 +566,18 @@ func readV0Case(t *Toks) *v0Case {
 			hs = ""
 		}
 		idx := uint32(t.U64())
-		bl := t.Raw()
+		bl := t.IssRaw()
 		es := t.Next()
 		t.Next()
 		if es == "-" {
 			es = ""
 		}
 		asset, token := t.U64(), t.U64()
-		aa, ta := readAddr(t), readAddr(t)
+		aa, ta := issReadAddr(t), issReadAddr(t)
 		c.re = pset.AddReissuanceArgs{PrevOutHash: hs, PrevOutIndex: idx, PrevOutBlinder: bl, Entropy: es,
 			AssetAmount: asset, TokenAmount: token, AssetAddress: aa.s, TokenAddress: ta.s}
 		if utxoOK {
-			c.re.WitnessUtxo = confUtxo()
+			c.re.WitnessUtxo = issConfUtxo()
 		}
 	}
 	return c
@@ -604,7 +604,7 @@ func runIssV0(t *Toks) string {
 
 // ---------- issv2 ----------
 func genV2Pkt(r *Rng, b *sb) int {
-	nin := r.Pick(0, 1, 1, 2, 3, 4)
+	nin := r.Pick(0, 1, 1, 1, 2, 2, 3, 4)
 	nout := r.Intn(3)
 	incount := nin
 	if r.Chance(4) && nin > 0 {
@@ -612,7 +612,7 @@ func genV2Pkt(r *Rng, b *sb) int {
 	}
 	b.addn(uint64(incount))
 	b.addn(uint64(nout))
-	b.add(b2s(!r.Chance(8)))
+	b.add(b2s(!r.Chance(5)))
 	b.addn(uint64(nin))
 	for i := 0; i < nin; i++ {
 		txid := r.Bytes(32)
@@ -620,10 +620,10 @@ func genV2Pkt(r *Rng, b *sb) int {
 			txid = r.Bytes(r.Pick(31, 33))
 		}
 		b.addh(txid)
-		b.addn(uint64(genIndex(r)))
+		b.addn(uint64(issGenIndex(r)))
 		b.addn(uint64(r.Pick(0, 0xffffffff, 0xfffffffe, 5)))
-		if r.Chance(30) { // an issuance is already attached
-			val, keys := genAmount(r), genAmount(r)
+		if r.Chance(22) { // an issuance is already attached
+			val, keys := issGenAmount(r), issGenAmount(r)
 			b.addn(val)
 			if val == 0 && r.Chance(40) {
 				b.add(hx(append([]byte{8}, r.Bytes(32)...)))
@@ -662,7 +662,7 @@ func genV2Pkt(r *Rng, b *sb) int {
 		b.addh(r.Bytes(32))
 		b.addh(r.Bytes(22))
 		if r.Bool() {
-			b.addh(genPubKey(r))
+			b.addh(issGenPubKey(r))
 			b.addn(uint64(r.Intn(3)))
 		} else {
 			b.add("-")
@@ -705,18 +705,18 @@ func genIssV2Cases(r *Rng, n int, w *bufio.Writer) {
 				bl = r.Bytes(r.Pick(0, 31, 33))
 			}
 			b.addh(bl)
-			es, ed := hexStrMaybe(r, 32)
-			b.add(strTok(es))
-			b.add(optTok(ed))
-			asset, token := genAmount(r), genAmount(r)
+			es, ed := issHexStrMaybe(r, 32)
+			b.add(issStrTok(es))
+			b.add(issOptTok(ed))
+			asset, token := issGenAmount(r), issGenAmount(r)
 			if r.Chance(70) {
 				asset |= 1
 				token |= 1
 			}
 			b.addn(asset)
 			b.addn(token)
-			writeAddr(&b, genAddrMaybe(r, r.Bool()))
-			writeAddr(&b, genAddrMaybe(r, r.Bool()))
+			issWriteAddr(&b, issGenAddrMaybe(r, r.Bool()))
+			issWriteAddr(&b, issGenAddrMaybe(r, r.Bool()))
 		}
 		fmt.Fprintf(w, "issv2 %s\n", strings.TrimSpace(b.String()))
 	}
@@ -745,15 +745,15 @@ func readV2Pkt(t *Toks) *psetv2.Pset {
 	p.Inputs = make([]psetv2.Input, 0, nin)
 	for i := 0; i < nin; i++ {
 		var in psetv2.Input
-		in.PreviousTxid = t.Raw()
+		in.PreviousTxid = t.IssRaw()
 		in.PreviousTxIndex = uint32(t.U64())
 		in.Sequence = uint32(t.U64())
 		in.IssuanceValue = t.U64()
-		in.IssuanceValueCommitment = t.Opt()
+		in.IssuanceValueCommitment = t.IssOpt()
 		in.IssuanceInflationKeys = t.U64()
-		in.IssuanceInflationKeysCommitment = t.Opt()
-		in.IssuanceBlindingNonce = t.Opt()
-		in.IssuanceAssetEntropy = t.Opt()
+		in.IssuanceInflationKeysCommitment = t.IssOpt()
+		in.IssuanceBlindingNonce = t.IssOpt()
+		in.IssuanceAssetEntropy = t.IssOpt()
 		switch t.Next() {
 		case "0":
 			f := false
@@ -770,16 +770,16 @@ func readV2Pkt(t *Toks) *psetv2.Pset {
 	for i := 0; i < nout; i++ {
 		var o psetv2.Output
 		o.Value = t.U64()
-		o.Asset = t.Raw()
-		o.Script = t.Raw()
-		o.BlindingPubkey = t.Raw()
+		o.Asset = t.IssRaw()
+		o.Script = t.IssRaw()
+		o.BlindingPubkey = t.IssRaw()
 		if len(o.BlindingPubkey) == 0 {
 			o.BlindingPubkey = nil
 		}
 		o.BlinderIndex = uint32(t.U64())
-		o.ValueCommitment = t.Opt()
-		o.AssetCommitment = t.Opt()
-		o.EcdhPubkey = t.Opt()
+		o.ValueCommitment = t.IssOpt()
+		o.AssetCommitment = t.IssOpt()
+		o.EcdhPubkey = t.IssOpt()
 		p.Outputs = append(p.Outputs, o)
 	}
 	return p
@@ -795,11 +795,11 @@ func writeV2Pkt(b *sb, p *psetv2.Pset) {
 		b.addn(uint64(in.PreviousTxIndex))
 		b.addn(uint64(in.Sequence))
 		b.addn(in.IssuanceValue)
-		b.add(optTok(in.IssuanceValueCommitment))
+		b.add(issOptTok(in.IssuanceValueCommitment))
 		b.addn(in.IssuanceInflationKeys)
-		b.add(optTok(in.IssuanceInflationKeysCommitment))
-		b.add(optTok(in.IssuanceBlindingNonce))
-		b.add(optTok(in.IssuanceAssetEntropy))
+		b.add(issOptTok(in.IssuanceInflationKeysCommitment))
+		b.add(issOptTok(in.IssuanceBlindingNonce))
+		b.add(issOptTok(in.IssuanceAssetEntropy))
 		if in.BlindedIssuance == nil {
 			b.add("n")
 		} else {
@@ -813,9 +813,9 @@ func writeV2Pkt(b *sb, p *psetv2.Pset) {
 		b.addh(o.Script)
 		b.addh(o.BlindingPubkey)
 		b.addn(uint64(o.BlinderIndex))
-		b.add(optTok(o.ValueCommitment))
-		b.add(optTok(o.AssetCommitment))
-		b.add(optTok(o.EcdhPubkey))
+		b.add(issOptTok(o.ValueCommitment))
+		b.add(issOptTok(o.AssetCommitment))
+		b.add(issOptTok(o.EcdhPubkey))
 	}
 }
 
@@ -826,14 +826,14 @@ func readV2Case(t *Toks) *v2Case {
 	if c.op == "add" {
 		c.args = readIssArgs(t)
 	} else {
-		bl := t.Raw()
+		bl := t.IssRaw()
 		es := t.Next()
 		t.Next()
 		if es == "-" {
 			es = ""
 		}
 		asset, token := t.U64(), t.U64()
-		aa, ta := readAddr(t), readAddr(t)
+		aa, ta := issReadAddr(t), issReadAddr(t)
 		c.re = psetv2.AddInReissuanceArgs{TokenPrevOutBlinder: bl, Entropy: es, AssetAmount: asset, TokenAmount: token,
 			AssetAddress: aa.s, TokenAddress: ta.s}
 	}
@@ -879,7 +879,7 @@ func v2Views(p *psetv2.Pset) (string, string, string) {
 	}
 	var g []string
 	for i := range p.Inputs {
-		g = append(g, optTok(p.Inputs[i].GetIssuanceAssetHash())+"/"+optTok(p.Inputs[i].GetIssuanceInflationKeysHash()))
+		g = append(g, issOptTok(p.Inputs[i].GetIssuanceAssetHash())+"/"+issOptTok(p.Inputs[i].GetIssuanceInflationKeysHash()))
 	}
 	return utx, ext, strings.Join(g, ",")
 }
@@ -899,6 +899,8 @@ func runIssV2(t *Toks) string {
 }
 
 var _ = chainhash.HashB
+
+func issExtractTx(p *psetv2.Pset) (*transaction.Transaction, error) { return psetv2.Extract(p) }
 
 func init() {
 	gens["issid"] = genIssIDCases
